@@ -535,16 +535,18 @@ func (a *it4) exactlyOncePerItem(oi ordInfo, pushes []*itEvent) string {
 			}
 			return st, ""
 		},
+		condLeaf: func(leaf ast.Expr, st int, truth bool) int {
+			if oi.kind == ordPass && st == 2 {
+				if truth {
+					return 1
+				}
+				return 0
+			}
+			return st
+		},
 		edge: func(b *cfg.Block, succ int, st int) int {
 			if oi.kind == ordPass {
 				if st == 2 {
-					// block ends with the condition containing Next(): true edge = obtained
-					if len(b.Succs) == 2 {
-						if succ == 0 {
-							return 1
-						}
-						return 0
-					}
 					return 1 // Next() used as a statement: assume an item was obtained
 				}
 				return st
@@ -1230,7 +1232,7 @@ func (a *it4) offsetDiscipline(oi ordInfo, pushes []*itEvent) string {
 			break
 		}
 		// the max variable must be raised with the pushed number in the same loop
-		if !maxTracked(a.info, p, mvar) {
+		if !a.maxTracked(p, mvar, oi, ds) {
 			return "the running maximum " + mvar.Name() + " is not raised to the pushed number in the pushing loop (" + a.c.Pos(p.pos()) + ")"
 		}
 	}
@@ -1258,8 +1260,21 @@ func isConstInt(info *types.Info, e ast.Expr, k int64) bool {
 	return false
 }
 
-func maxTracked(info *types.Info, p *itEvent, mvar types.Object) bool {
-	// innermost loop body containing the push
+// maxTracked: in the loop that pushes, the running maximum is raised to the pushed number itself:
+// `if X > m { m = X }` with X textually the pushed order expression, or X = the source number when
+// the offset is still provably 0 at that loop (no assignment of the offset precedes the loop).
+func (a *it4) maxTracked(p *itEvent, mvar types.Object, oi ordInfo, offDefs []ast.Expr) bool {
+	info := a.info
+	pushed := ""
+	// recover the pushed order expression text
+	switch x := ast.Unparen(p.arg).(type) {
+	case *ast.CallExpr:
+		if len(x.Args) == 1 {
+			pushed = types.ExprString(ast.Unparen(x.Args[0]))
+		} else if len(x.Args) == 3 {
+			pushed = types.ExprString(ast.Unparen(x.Args[1]))
+		}
+	}
 	for k := len(p.path) - 1; k >= 0; k-- {
 		if l, ok := p.path[k].(*ast.ForStmt); ok {
 			found := false
@@ -1269,9 +1284,25 @@ func maxTracked(info *types.Info, p *itEvent, mvar types.Object) bool {
 						if id, ok := ast.Unparen(b.Y).(*ast.Ident); ok && info.ObjectOf(id) == mvar {
 							for _, st := range ifs.Body.List {
 								if as, ok := st.(*ast.AssignStmt); ok && len(as.Lhs) == 1 {
-									if lid, ok := as.Lhs[0].(*ast.Ident); ok && info.ObjectOf(lid) == mvar &&
-										types.ExprString(ast.Unparen(as.Rhs[0])) == types.ExprString(ast.Unparen(b.X)) {
-										found = true
+									if lid, ok := as.Lhs[0].(*ast.Ident); ok && info.ObjectOf(lid) == mvar {
+										tracked := types.ExprString(ast.Unparen(as.Rhs[0]))
+										if tracked != types.ExprString(ast.Unparen(b.X)) {
+											continue
+										}
+										if tracked == pushed {
+											found = true
+										} else if oi.offVar != nil && pushed == tracked+" + "+oi.offVar.Name() {
+											// allowed only while the offset is still 0: no later definition of the offset precedes this loop
+											zero := true
+											for _, d := range offDefs[1:] {
+												if d != nil && d.Pos() < l.Pos() {
+													zero = false
+												}
+											}
+											if zero {
+												found = true
+											}
+										}
 									}
 								}
 							}
